@@ -245,7 +245,44 @@ func (g *gcase) cloneTxn() {
 }
 
 // txn emits one transaction. mode: 0 mixed, 1 grow, 2 shrink.
+// oneShot emits Tree.Insert / Tree.Modify / Tree.Delete on the head version: a transaction of one write,
+// committed and notified by the tree itself
+func (g *gcase) oneShot() {
+	g.watchOps(g.head, 1+g.r.Intn(2))
+	cur := cloneSet(g.vkeys[g.head])
+	k := g.randKey()
+	if len(cur) > 0 && g.r.Chance(50) {
+		var ks []string
+		for x := range cur {
+			ks = append(ks, x)
+		}
+		sort.Strings(ks)
+		k = []byte(ks[g.r.Intn(len(ks))])
+	}
+	g.nver++
+	v := fmt.Sprintf("%d", g.nver)
+	switch g.r.Intn(3) {
+	case 0:
+		g.out.P("tins %s %d %s", hx.Hex(k), g.r.Intn(1000), v)
+		cur[string(k)] = true
+	case 1:
+		g.out.P("tmod %s %d %s", hx.Hex(k), g.r.Intn(1000), v)
+		cur[string(k)] = true
+	default:
+		g.out.P("tdel %s 0 %s", hx.Hex(k), v)
+		delete(cur, string(k))
+	}
+	g.out.P("chk")
+	g.versions = append(g.versions, v)
+	g.vkeys[v] = cur
+	g.head = v
+}
+
 func (g *gcase) txn(nOps int, mode int) {
+	if g.r.Chance(8) {
+		g.oneShot()
+		return
+	}
 	base := g.head
 	if len(g.versions) > 1 && g.r.Chance(20) {
 		base = hx.Pick(g.r, g.versions)
